@@ -432,9 +432,9 @@ func (sc *c15Scenario) runQueue(s *simrt.Sim) {
 				case "GetChannelRecv":
 					h.Do(name, "GetChannelRecv", op.D, func() (interface{}, error) {
 						ch := q.GetChannel()
-						tm := time.NewTimer(op.D)
-						defer tm.Stop()
 						tk := simrt.B(-4)
+						tm := time.NewTimer(op.D) // after the yield point of B: no virtual time may pass before the select
+						defer tm.Stop()
 						select {
 						case v, ok := <-ch:
 							simrt.U(tk)
